@@ -172,8 +172,11 @@ Section Mech.
   Variable cm : list (list (list string)).
   Variable builtin_names : list name.
   Variable frames_max : nat.
+  Variable hit_checks_loading : bool.
+  Variable builtins_guarded : bool.
 
-  Definition mstep := step nat (list top) (prog_loader prog) (prog_compiler prog cm) builtin_names frames_max.
+  Definition mstep := step nat (list top) (prog_loader prog) (prog_compiler prog cm) builtin_names frames_max
+                           hit_checks_loading builtins_guarded.
 
   Definition with_ms (x : xst) (s : state) : xst := mkx s (xout x) (hids x) (nexth x) (xflags x).
   Definition emit (x : xst) (l : string) : xst := mkx (ms x) (l :: xout x) (hids x) (nexth x) (xflags x).
@@ -258,13 +261,11 @@ Section Mech.
           let nm := import_alias p a in
           bind_s (do_step x (EStartImport (mod_path (N.to_nat p)))) (fun x1 o =>
             match o with
-            | OModule id =>
-              bind_s (do_step x1 EFinishImport) (fun x2 _ => bind_alias env x2 nm (VMod id))
+            | OModule id => bind_alias env x1 nm (VMod id)
             | OEntered id body =>
               match run_task fuel' (TkTops body (src_of_mod x1 id)) x1 with
               | RNormal _ x2 =>
-                bind_s (do_step x2 EReturn) (fun x3 _ =>
-                bind_s (do_step x3 EFinishImport) (fun x4 _ => bind_alias env x4 nm (VMod id)))
+                bind_s (do_step x2 EReturn) (fun x3 _ => bind_alias env x3 nm (VMod id))
               | r => r
               end
             | _ => RIll "import"
@@ -424,7 +425,7 @@ Fixpoint slookup_local (env : senv) (x : name) : option svalue :=
   end.
 
 Record sx := mksx { ss : sstate; sout : list string; sfl : string }.
-(* sfl: "r" = a module whose body had failed was imported again (known class failed_import_poisons_module) *)
+(* sfl: reserved for flags of the Spec run (none at present) *)
 
 Inductive sresult :=
 | QNormal (env : senv) (x : sx)
@@ -499,7 +500,6 @@ Section SpecEval.
         match d with
         | DSame => sbind cur env x1 nm (SMod pth)
         | DRaise e => QRaised (SXErr e) x1
-        | DFailedBefore => QRaised (SXErr (mkerr KImport [any_msg])) (mksx st1 (sout x) (sfl x ++ "r"))
         | DRun body =>
           match sexec_tops fuel' pth body (N.to_nat p) x1 with
           | QNormal _ x2 =>
@@ -807,10 +807,10 @@ Definition default_fuel : nat := 3000.
 
 (* one case of the correspondence check:  mech @ spec @ rendered sources *)
 Definition run_case (cm : list (list (list string))) (builtin_names core_names : list name) (frames_max : N)
-           (w : string) : string :=
+           (hit_checks_loading builtins_guarded : bool) (w : string) : string :=
   let prog := parse_prog w in
   if wf_prog prog then
-    eval_mech prog cm builtin_names (N.to_nat frames_max) default_fuel core_names
+    eval_mech prog cm builtin_names (N.to_nat frames_max) hit_checks_loading builtins_guarded default_fuel core_names
     ++ "@" ++ eval_spec prog (builtin_names ++ core_names) default_fuel
     ++ "@" ++ render prog
   else "ILLFORMED".
